@@ -90,6 +90,10 @@ func Props(c *Ctx) map[string]*Prop {
 		Explanation: "Decides the table side of C arithmetic: operator spellings the tokeniser recognises = the ops table (TB9a); each operator case computes `l S r` on signed 64-bit operands in that order, unary and truth tests as C defines them, constants parsed with base 0 (TB9b); the grammar's levels are C's precedence ladder with C's associativity (GR5) and the compiled tables are the grammar's (GR1, GR2); run-time faults are recovered into ArithExprError (PF5); and whether side effects are executed inside reductions that C would skip (AR). Numeric results are not computed.",
 		Assumptions: []string{"analysed build configuration linux/amd64 (int is 64-bit); the thorough tier re-checks the width under linux/386", "C's operator table (ISO C 6.5) is the external oracle"},
 		Rules: []Rule{ruleGR1("interp"), ruleGR2("interp"), ruleGR5(), ruleTB9a("interp", "interp.(*lexer).lexOp", 30), ruleTB9b(), rulePF5(), ruleEF7(), ruleAR()}})
+	add(&Prop{ID: "C06",
+		Explanation: "Decides race freedom and goroutine lifetime structurally for every path: goroutine roots always close their channels (CC1); every access to goroutine-touched lexer fields after a spawn is preceded by a join on all paths (CC2); every field shared between the lexer-role and parser-role functions with a write is accessed only under the mutex, atomically or as a channel operation (CC3); sends can always be abandoned, the cancel channel is closed at most once, atomics are used consistently (CC4/CC5); the here-document hand-off cannot deadlock (CC6, GR4); the bail-out does not kill the process (PF4). Which of two concurrently raised errors is returned is a schedule-dependent value and is not decided.",
+		Assumptions: []string{"the Go memory model: lock, atomic, channel and go/join edges order accesses", "roles are computed on an over-approximating call graph (reference based + CHA for interface calls)"},
+		Rules: []Rule{ruleCC1("parser", "interp"), ruleCC2("parser", "interp"), ruleCC3("parser", "interp"), ruleCC4("parser", "interp"), ruleCC6(), ruleGR1("parser"), ruleGR4(), rulePF4("parser", "interp")}})
 	add(&Prop{ID: "DEVT", Explanation: "dev", Rules: []Rule{ruleTB5(), ruleTB6(), ruleTB7(), ruleTB8(), ruleTB10(), ruleTB13(), ruleTB9a("parser", "parser.(*lexer).scanOp", 15)}})
 	add(&Prop{ID: "DEVG", Explanation: "dev", Rules: []Rule{ruleGR1("parser", "interp"), ruleGR2("parser", "interp"), ruleGR3(), ruleGR4(), ruleGR5(), ruleGR6()}})
 	return m
